@@ -489,6 +489,37 @@ fn ffi_call(rng: &mut Rng, fns: &[(String, Vec<String>)]) -> String {
 
 /// a dimensionful base raised to an exponent the checker has to evaluate at compile time: small integers under
 /// + - * / ^ (zero bases, negative and fractional exponents, divisions by zero included)
+/// operations whose range checks live in numbat (date-time arithmetic with durations of every magnitude, the
+/// three-argument assertion with tolerances of every magnitude — its failure message formats the tolerance), and
+/// definitions whose local names shadow units
+fn range_edges(rng: &mut Rng) -> String {
+    let mags = ["0", "1", "-1", "1e3", "1e9", "6e11", "6.4e11", "7e11", "1e12", "-1e12", "1e15", "1e18", "9e18", "9.3e18", "1e19", "1e30", "-1e30", "1e308", "1e-9", "1e-130", "1e-300", "5e-324", "NaN", "inf", "-inf"];
+    let tunits = ["s", "ms", "µs", "ns", "min", "hours", "days", "weeks", "months", "years", "decades", "centuries", "millennia"];
+    let dts = ["now()", "date(\"2000-01-01\")", "datetime(\"2022-07-20 21:52 +0200\")", "datetime(\"0001-01-01 00:00:00 UTC\")", "datetime(\"9999-12-31 23:59:59 UTC\")", "today()"];
+    match rng.below(9) {
+        0 | 1 => format!("{} {} {} {}", rng.pick(&dts), rng.pick(&["+", "-"]), rng.pick(&mags), rng.pick(&tunits)),
+        2 => format!("{} - {}", rng.pick(&dts), rng.pick(&dts)),
+        3 => format!("{}({}, {} {})", rng.pick(&["calendar_add", "calendar_sub"]), rng.pick(&dts), rng.pick(&mags), rng.pick(&["days", "months", "years", "s", "hours"])),
+        4 | 5 => {
+            let (a, b, u) = *rng.pick(&[("1", "2", ""), ("1 m", "2 cm", " mm"), ("1 m", "1 m", " m"), ("0", "1e-200", ""), ("1e300", "-1e300", ""), ("3 s", "3.5 s", " ms")]);
+            format!("assert_eq({}, {}, {}{})", a, b, rng.pick(&mags), u)
+        }
+        6 => format!("from_unixtime({} {})", rng.pick(&mags), rng.pick(&["s", "ms", "days", "years"])),
+        _ => {
+            // a parameter / where-variable / let named like a unit or a prelude identifier, used as a unit nearby
+            let n = *rng.pick(&["s", "m", "g", "h", "meter", "second", "pi", "e", "c", "x", "K", "N"]);
+            let n2 = *rng.pick(&["s", "m", "g", "h", "kg", "min", "x"]);
+            match rng.below(5) {
+                0 => format!("fn f(x: Scalar) -> Scalar = a where a = x * {} / {} and {} = 5\nf(1)", n, n, n),
+                1 => format!("fn f({}: Time) -> Time = 2 kilo{}\nf(1 s)", n, n),
+                2 => format!("fn f(x: Scalar) = {} where {} = x * {} and {} = 2 {}\nf(2)", n, n, n2, n2, n),
+                3 => format!("fn f({}) = {} * 2 {} where {} = 3\nf(1)", n, n, n2, n2),
+                _ => format!("fn f(t: Time) -> Time = 2 kilo{} where {} = 3 s\nf(1 s)", n, n),
+            }
+        }
+    }
+}
+
 fn const_exponent(rng: &mut Rng) -> String {
     fn ex(rng: &mut Rng, depth: usize) -> String {
         let ints = ["0", "1", "2", "3", "-1", "-2", "-3", "(1 - 1)", "(-0)", "0.5", "(1/2)", "10", "127", "(2^62)"];
@@ -630,7 +661,7 @@ fn main() {
             8 => { let g = grammar(&mut rng, 2); (mutate(&mut rng, &g), "mutated_grammar") }
             9 => { let a = corpus[rng.below(corpus.len())].clone(); let b = soup(&mut rng); (format!("{}{}", a.chars().take(40).collect::<String>(), b), "corpus_plus_soup") }
             10 => (ffi_call(&mut rng, &fninfo), "library_call"),
-            _ => (const_exponent(&mut rng), "const_exponent"),
+            _ => if (i / 12) % 2 == 0 { (const_exponent(&mut rng), "const_exponent") } else { (range_edges(&mut rng), "range_edges") },
         };
         judge(&mut pool, &mut out, &format!("in {}", esc(&text)), class, session);
         if pool.hangs > 5 {
